@@ -344,6 +344,24 @@ def run_handoff(rep, facts):
             (rep.ok if i["status"] == "ok" else rep.violation)("R7.5", i["instance"], i["detail"], i["loc"])
 
 
+def run_stream_switch(rep, facts):
+    """R7.7: what close() relies on when it calls set_stream(None) (and the handler, when it advances the active stream): the rest of
+    the old stream's current record is skipped, never delivered as data of the new selection (rules of C18 / C05, re-evaluated)."""
+    import check as _check
+    from . import c18, c05
+    rep.rule("R7.7", "a stream switch demotes a record of the old stream that is in flight (Stream -> Skip) on every path, whatever is buffered at that moment (R18.2); "
+                     "and close() does not drive the parser at a record boundary, where buffered bytes belong to the next request (R5.5)")
+    sr = _check.Report("tmp", "quick")
+    c18.run(sr, facts)
+    for i in sr.instances:
+        if i["rule"] == "R18.2":
+            (rep.ok if i["status"] == "ok" else rep.violation)("R7.7", i["instance"], i["detail"], i["loc"])
+    sr = _check.Report("tmp", "quick")
+    c05.run_async_handoff(sr, facts)
+    for i in sr.instances:
+        (rep.ok if i["status"] == "ok" else rep.violation)("R7.7", i["instance"], i["detail"], i["loc"])
+
+
 def run_compaction(rep, facts):
     from . import c12
     rep.rule("R7.6", "while draining to a record boundary (and in every in-request read) the buffer is compacted before reading, so a handler that left a large record unread cannot make close() fail for lack of buffer space")
@@ -358,6 +376,7 @@ def main(rep, tier):
     f = F.load(("async", "http"))
     check.guard(rep, "R7.5", run_handoff, f)
     check.guard(rep, "R7.6", run_compaction, f)
+    check.guard(rep, "R7.7", run_stream_switch, f)
     rep.configs.append({"features": "async,http", "profile": "debug", "bodies": len(f.bodies)})
     check.guard(rep, "R7", run, f)
     import check as _c
